@@ -94,7 +94,7 @@ pub fn frame_table(stream: &[u8], limit: u32) -> Vec<FrameInfo> {
 
 const KEYS: [&[u8]; 5] = [b"a", b"bb", b"key3", b"\0\xff\x80", b"counter"];
 
-fn gen_frame(rng: &mut SmallRng, opaque: u32, limit: u32, allow_closing: bool) -> Frame {
+pub fn gen_frame(rng: &mut SmallRng, opaque: u32, limit: u32, allow_closing: bool) -> Frame {
     let key = KEYS[rng.gen_range(0..KEYS.len())];
     let val: Vec<u8> = match rng.gen_range(0..5) {
         0 => vec![],
@@ -514,6 +514,12 @@ fn hostile_case(stack: &Stack, bytes: &[u8], chunks: &[usize], limit: u32) -> Ho
                 return res;
             }
         }
+    }
+    // a connection never has to retain more than one request within the limit: when the decoder
+    // asks for more input it may hold at most limit + header (+ a small constant) bytes
+    if conn.max_retained > limit as usize + 24 + 64 {
+        res.viol = Some(Viol::new(&["C10"], "retains-oversized-body", format!("the decoder asked for more input while holding {} bytes (item limit {})", conn.max_retained, limit)));
+        return res;
     }
     // buffer bound: what the decoder reserves on top of what the caller fed
     let bound = 2 * (bytes.len() + limit as usize) + 8192;
